@@ -23,10 +23,10 @@ and per-design width rows, the acquisition picks (design, objective index) in th
 them, VOGP_AD's refinement test and DecoupledGP's new Pareto set.
 
 **Batch selection.**  The model is total: from the picks offered by the environment it keeps those
-that lie in the active set and takes the first `min(batch, |active|)` — that is what the property
-demands when `batch_size` exceeds the remaining active set.  What the *code* does in that situation
-(`optimize_acqf_discrete` runs out of choices and raises) is flagged separately in
-`Out.batchExceeds`.
+that lie in the active set and takes the first `min(batch, |active|)` (decoupled problems:
+`min(batch, m·|active|)` (design, objective) pairs) — that is what the property demands when
+`batch_size` exceeds the remaining active set.  The situation itself (`batch > |active|`, where
+`optimize_acqf_discrete` used to run out of choices and raise) is flagged in `Out.batchExceeds`.
 
 `State` is one record for all families (`U` stays empty outside the PaVeBa family, `latch`,
 `depths`, `parent` are VOGP_AD's `enable_epsilon_covering`, `point_depths` and the tree structure;
@@ -159,10 +159,11 @@ def cappedC (c : Cfg) (active : List Nat) (picks : List (Nat × Nat)) : List Req
     (fun p => (p.1, none))
 
 /-- decoupled batch (`optimize_decoupled_acqf_discrete`): (design, objective) pairs with the design
-in the active set and a valid objective index, at most `min(batch, |active|)` of them -/
+in the active set and a valid objective index, at most `min(batch, m·|active|)` of them (there are
+`m·|active|` distinct evaluations to choose from) -/
 def cappedD (c : Cfg) (active : List Nat) (picks : List (Nat × Nat)) : List Req :=
   ((picks.filter (fun p => active.contains p.1 && decide (p.2 < c.m))).take
-    (min c.batch active.length)).map (fun p => (p.1, some p.2))
+    (min c.batch (c.m * active.length))).map (fun p => (p.1, some p.2))
 
 /-- every design of the active set once (PaVeBa, Auer, NaiveElimination) -/
 def allOf (active : List Nat) : List Req := active.map (fun d => (d, none))
@@ -224,25 +225,47 @@ def depthOf (s : State) (i : Nat) : Nat := s.depths.getD i 0
 /-- indices of the children created by refining a node when `n` nodes exist -/
 def childIds (c : Cfg) (n : Nat) : List Nat := (List.range c.branch).map (n + ·)
 
-/-- `evaluate_refine()` on the sets `S`, `P` after ε-covering: the first pick inside `W = S ∪ P`
-is refined (children replace it in its own set) if its depth is below the maximum and the
-environment's test says so, otherwise it is sampled -/
-def evalRefine (c : Cfg) (s : State) (e : Env) : Act :=
-  let W := union s.S s.P
-  match (e.picks.filter (fun p => W.contains p.1)).head? with
-  | none => { st := account c s [], req := [] }
+/-- what `evaluate_refine()` decides to do with the design the acquisition picked -/
+inductive Choice where
+  /-- the environment offered no pick inside `W` (the model is total) -/
+  | idle
+  /-- `problem.evaluate` on the picked node -/
+  | sample (d : Nat)
+  /-- the picked node is in `S` and is refined -/
+  | refineS (d : Nat)
+  /-- the picked node is in `P` and is refined -/
+  | refineP (d : Nat)
+  deriving DecidableEq, Repr
+
+/-- the first pick inside `W = S ∪ P` is refined if its depth is below the maximum
+(`should_refine_design` returns `False` at `max_depth`) and the environment's test says so,
+otherwise it is sampled -/
+def choose (c : Cfg) (s : State) (e : Env) : Choice :=
+  match (e.picks.filter (fun p => (union s.S s.P).contains p.1)).head? with
+  | none => .idle
   | some p =>
-    let d := p.1
-    if decide (depthOf s d < c.maxDepth) && e.refineTest then
-      let kids := childIds c s.depths.length
-      let s' := { s with depths := s.depths ++ List.replicate c.branch (depthOf s d + 1)
-                         parent := s.parent ++ List.replicate c.branch d }
-      if s.S.contains d then
-        { st := account c { s' with S := s.S.erase d ++ kids } [], req := [], refined := some d }
-      else
-        { st := account c { s' with P := s.P.erase d ++ kids } [], req := [], refined := some d }
-    else
-      { st := account c s [(d, none)], req := [(d, none)] }
+    if decide (depthOf s p.1 < c.maxDepth) && e.refineTest then
+      if s.S.contains p.1 then .refineS p.1 else .refineP p.1
+    else .sample p.1
+
+/-- `design_space.refine_design(d)`: `branch` new nodes one level below `d` -/
+def grow (c : Cfg) (s : State) (d : Nat) : State :=
+  { s with depths := s.depths ++ List.replicate c.branch (depthOf s d + 1)
+           parent := s.parent ++ List.replicate c.branch d }
+
+/-- carry out the choice: children replace a refined node *in its own set* -/
+def applyChoice (c : Cfg) (s : State) : Choice → Act
+  | .idle => { st := account c s [], req := [] }
+  | .sample d => { st := account c s [(d, none)], req := [(d, none)] }
+  | .refineS d =>
+    { st := account c { grow c s d with S := s.S.erase d ++ childIds c s.depths.length } []
+      req := [], refined := some d }
+  | .refineP d =>
+    { st := account c { grow c s d with P := s.P.erase d ++ childIds c s.depths.length } []
+      req := [], refined := some d }
+
+/-- `evaluate_refine()` on the sets `S`, `P` after ε-covering -/
+def evalRefine (c : Cfg) (s : State) (e : Env) : Act := applyChoice c s (choose c s e)
 
 /-- VOGP_AD: discarding, gated ε-covering, then `evaluate_refine()` only if `S ≠ ∅` -/
 def adActive (c : Cfg) (s : State) (e : Env) : Act :=
@@ -349,8 +372,8 @@ def Alg.evalAll : Alg → Bool
   | _ => false
 
 /-- requests of one call: drawn from the active set; all of it (once each) for PaVeBa, Auer and
-NaiveElimination, at most `min(batch, |active|)` otherwise; objective indices exactly for the
-decoupled problems and valid -/
+NaiveElimination, at most `min(batch, |active|)` otherwise (`min(batch, m·|active|)` pairs for the
+decoupled problems); objective indices exactly for the decoupled problems and valid -/
 def reqsOk (c : Cfg) (s s' : State) (o : Out) : Bool :=
   let act := activeAt c s s'
   o.req.all (fun r => act.contains r.1) &&
@@ -358,7 +381,10 @@ def reqsOk (c : Cfg) (s s' : State) (o : Out) : Bool :=
      o.req.length == act.length && act.all (fun d => o.req.any (fun r => r.1 == d)) &&
      o.req.all (fun r => r.2.isNone)
    else
-     decide (o.req.length ≤ min c.batch act.length) &&
+     decide (o.req.length ≤ min c.batch ((match c.alg with
+        | .pavebaPartial => c.m
+        | .decoupled => c.m
+        | _ => 1) * act.length)) &&
      (match c.alg with
       | .pavebaPartial => o.req.all (fun r => match r.2 with | some k => decide (k < c.m) | none => false)
       | .decoupled => o.req.all (fun r => match r.2 with | some k => decide (k < c.m) | none => false)
